@@ -54,6 +54,11 @@ func (p *producer) dual() *dualKey {
 		if asR1.DecodeBytes(pub) != nil {
 			continue
 		}
+		// with one signature the multisignature check tries the keys from the end of the sorted list: the two-curve
+		// key has to be the one tried (and decoded) before account 0's key fits
+		if asR1.Cmp(p.kr.accts[0].PublicKey()) <= 0 {
+			continue
+		}
 		script, err := smartcontract.CreateMultiSigRedeemScript(1, keys.PublicKeys{asR1, p.kr.accts[0].PublicKey()})
 		if err != nil {
 			panic(err)
